@@ -77,9 +77,9 @@ fn spec(id: &str) -> Option<Spec> {
             assumptions: BASE_ASSUME,
         },
         "C06" => Spec {
-            run: runners_vec::run_c06,
+            run: runners_thr::run_c06,
             level: "exploration",
-            rule: "as C05 with capacities 1,2,3,5,6,16,1000 and lazy polling patterns; the harness counts undelivered messages per subscriber. Non-trivial = a Reset was delivered or a subscriber was polled with a backlog of at least capacity-1 messages; distinct = hash of the history. A run without any Reset is INCONCLUSIVE.",
+            rule: "as C05 with capacities 1,2,3,5,6,16,1000 and lazy polling patterns; the harness counts undelivered messages per subscriber. Non-trivial = a Reset was delivered or a subscriber was polled with a backlog of at least capacity-1 messages; distinct = hash of the history. A run without any Reset is INCONCLUSIVE. Plus a cross-thread variant (writer thread, every subscriber stream on its own park/unpark thread): a stream that is Pending after the writer finished, and not woken, must hold the vector's contents; at the end every replica equals the final contents.",
             assumptions: BASE_ASSUME,
         },
         "C07" => Spec {
